@@ -303,7 +303,8 @@ def replay(cases, envs, backend: str = "numpy", nproc: int = 16, batch: int = 12
         for b, out in zip(batches, ex.map(_worker, jobs)):
             for (i, ename, msg) in out["errors"]:
                 ci, st, text = b[i]
-                if not _harness_defined_points(cases[ci]):
+                if len(_harness_defined_points(cases[ci])) < 2:
+                    # defined nowhere, or only at an isolated point of the grid (sqrt(-abs(x)) at x = 0): not a model
                     stats["errors_outside_domain"] += 1
                     continue
                 stats["errors"] += 1
